@@ -74,6 +74,12 @@ func baseHistories(thorough bool) []history {
 			{Source: v1, Limit: lim(1), Activation: "Automatic", Pull: "IfNotPresent"},
 			{Source: v2}, {Source: v3}, {Source: v2}, {Source: v1}, {Source: v3}, {Limit: lim(2)}, {Source: v4}, {Source: v1}, {Limit: lim(1)},
 		}},
+		// upgrades that are taken back at once (with the next-edit-first fault variant: an upgrade that
+		// failed halfway and is rolled back before it was retried)
+		{Name: "upgrade-taken-back", Steps: []step{
+			{Source: v1, Limit: lim(2), Activation: "Automatic", Pull: "IfNotPresent"},
+			{Source: v2}, {Source: v1}, {Source: v3}, {Source: v1}, {Source: v2}, {Source: v3},
+		}},
 		{Name: "limit-zero-then-lowered", Steps: []step{
 			{Source: v1, Limit: lim(0), Activation: "Automatic", Pull: "IfNotPresent"},
 			{Source: v2}, {Source: v3}, {Source: v4}, {Source: v2}, {Limit: lim(2)}, {Source: v1}, {Limit: lim(1)}, {Limit: lim(0)}, {Source: v3},
